@@ -11,12 +11,23 @@ pub struct C09 {
     seed: u64,
     boot: Xstate,
     xs: Xstate,
+    /// mode "pyvec": (word, a, b, kind, value) lines computed by Python (see stages.c09_arith_vectors)
+    vectors: Vec<String>,
+    pyvec: bool,
 }
 
 impl C09 {
     pub fn new(a: &Args) -> C09 {
         let boot = Xstate::boot().expect("boot");
-        C09 { seed: a.seed, xs: boot.clone(), boot }
+        let mut vectors = vec![];
+        if a.mode == "pyvec" {
+            if let Ok(path) = std::env::var("XV_ARITH_VECTORS") {
+                if let Ok(t) = std::fs::read_to_string(path) {
+                    vectors = t.lines().map(|l| l.to_string()).collect();
+                }
+            }
+        }
+        C09 { seed: a.seed, xs: boot.clone(), boot, vectors, pyvec: a.mode == "pyvec" }
     }
 }
 
@@ -526,8 +537,89 @@ impl C09 {
     }
 }
 
+impl C09 {
+    /// one reference vector: the expected outcome was computed by Python's unbounded integers / doubles
+    fn vector_case(&mut self, idx: u64, obs: &mut Obs) {
+        if self.vectors.is_empty() {
+            obs.count("pyvec:no-vectors");
+            return;
+        }
+        let line = self.vectors[(idx as usize) % self.vectors.len()].clone();
+        let f: Vec<&str> = line.split('\t').collect();
+        if f.len() != 5 {
+            return;
+        }
+        let parse = |t: &str| -> Option<Cell> {
+            if t == "-" {
+                None
+            } else if let Some(h) = t.strip_prefix('r') {
+                u64::from_str_radix(h, 16).ok().map(|b| Cell::Real(f64::from_bits(b)))
+            } else {
+                t.parse::<i128>().ok().map(Cell::Int)
+            }
+        };
+        let (word, kind, value) = (f[0], f[3], f[4]);
+        let mut xs = self.boot.clone();
+        let mut n = 0;
+        for t in [f[1], f[2]] {
+            if let Some(c) = parse(t) {
+                let _ = xs.push_data(c);
+                n += 1;
+            }
+        }
+        let r = catch(|| xs.eval(word));
+        let top = xs.get_data(0).cloned();
+        let depth = xs.data_depth();
+        let bad = |obs: &mut Obs, class: &str, detail: String| {
+            obs.violation(Violation { class: format!("pyvec:{}:{}", word, class), sig: format!("C09:pyvec:{}:{}", word, class), index: idx, case: line.clone(), detail });
+        };
+        obs.count("pyvec:vectors");
+        obs.see("pyvec_words", word);
+        obs.count(&format!("pyvec:kind:{}", kind));
+        match r {
+            Err((m, l)) => return bad(obs, "panic", format!("panic {} at {}", m, normalise_loc(&l))),
+            Ok(Err(e)) => {
+                let class = err_class(&e);
+                let ok = match kind {
+                    "div0" => class == "div-zero",
+                    "wrap" => class == "int-overflow",
+                    // a real rem-free division by zero is a division error; anything else must not fail
+                    _ => false,
+                };
+                if !ok {
+                    return bad(obs, "error", format!("{} on {} operand(s) raised {}, Python says {} {}", word, n, show_err(&e), kind, value));
+                }
+            }
+            Ok(Ok(())) => {
+                let t = match top {
+                    Some(t) if depth == 1 => t,
+                    _ => return bad(obs, "stack", format!("depth {}", depth)),
+                };
+                let ok = match (kind, t.value()) {
+                    ("exact", Cell::Int(v)) | ("wrap", Cell::Int(v)) => value.parse::<i128>().ok() == Some(*v),
+                    ("flag", Cell::Flag(b)) => (value == "true") == *b,
+                    ("real", Cell::Real(x)) => u64::from_str_radix(value, 16).ok() == Some(x.to_bits()),
+                    ("nan", Cell::Real(x)) => x.is_nan(),
+                    _ => false,
+                };
+                if !ok {
+                    return bad(obs, "value", format!("got {}, Python says {} {}", show(&t), kind, value));
+                }
+            }
+        }
+        obs.add("evaluations", 1);
+        obs.shape(fnv1a(line.as_bytes()));
+        if idx % 9973 == 0 {
+            obs.sample(J::obj(vec![("python_vector", J::s(line))]));
+        }
+    }
+}
+
 impl Monitor for C09 {
     fn run_case(&mut self, idx: u64, obs: &mut Obs) {
+        if self.pyvec {
+            return self.vector_case(idx, obs);
+        }
         let mut rng = Rng::for_case("C09", self.seed, idx);
         let word = WORDS[(idx % WORDS.len() as u64) as usize];
         let n = arity(word);
